@@ -372,7 +372,7 @@ def corpus_inputs(area):
     return rows
 
 
-def pipeline(ctx, area, n, extra_gen=(), timeout=3000):
+def pipeline(ctx, area, n, extra_gen=(), timeout=3000, model=True):
     """gen (seeded) + corpus -> exec on the real code -> Lean driver on the same lines.
     Returns (inputs, impl_by_id, model_by_id) or None when a stage could not run (recorded as l2_broken)."""
     if ctx.replay_file:
@@ -394,11 +394,13 @@ def pipeline(ctx, area, n, extra_gen=(), timeout=3000):
     if p.returncode != 0:
         ctx.l2_broken.append({"stream": area + "-exec", "detail": (p.stdout + p.stderr)[-2000:]})
         return None
+    impl = {r["id"]: r["out"] for r in read_jsonl(implf)}
+    if not model:
+        return inputs, impl, {}
     p = run_driver(area, inp, modelf, timeout=timeout)
     if p.returncode != 0:
         ctx.l2_broken.append({"stream": area + "-driver", "detail": (p.stdout + p.stderr)[-2000:]})
         return None
-    impl = {r["id"]: r["out"] for r in read_jsonl(implf)}
     model = {r["id"]: r["out"] for r in read_jsonl(modelf)}
     return inputs, impl, model
 
